@@ -26,6 +26,7 @@ LEVEL_TEXT = (
     "verdict on both. Seeded random trees of depth <= 5, k in 1..depth, module_path at and below the root."
 )
 LEVEL_NOTE = "Truncation is computed by refmodel/names.py on the raw graph of the unlimited scan; rules are restricted to pairwise-unrelated names (related names legitimately differ because self-edges vanish)."
+LEVEL_TEXT += ' Extra shards scan random projects (a quarter of them wide and deep) under independently drawn options - file exclusions, level limit, kept externals with external exclusions, module_path below the root, module-object entry point - judged by the same deciding steps. Name pools include unusual legal identifiers (non-ASCII, combining marks, U+00B7, case / zero-padding twins, py*/init* names).'
 RULE = (
     "an evaluation = one (full scan, limited scan) pair or one rule evaluated on both; non-trivial pair = truncation merged at least one module "
     "(some module lies below the limit); distinct = distinct (tree digest, module_path, k)"
